@@ -52,6 +52,9 @@ pub struct State {
     pub overflow: bool,
     pub probe_writer_queued_between: u64,
     pub held_pairs: std::collections::BTreeSet<String>,
+    /// PCT-style scheduling (Burckhardt et al.): random thread priorities, the highest admissible one runs,
+    /// at `change` decision indexes the thread that would run is demoted below everybody else
+    pub pct: Option<(Vec<i64>, Vec<u64>)>,
 }
 
 pub struct Sched {
@@ -60,7 +63,14 @@ pub struct Sched {
 }
 
 impl Sched {
-    pub fn new(k: usize, seed: u64, replay: Option<Vec<usize>>) -> Sched {
+    pub fn new(k: usize, seed: u64, replay: Option<Vec<usize>>, pct_depth: Option<u64>) -> Sched {
+        let mut prng = crate::rng::Rng::new(seed).derive("pct");
+        let pct = pct_depth.map(|d| {
+            let mut prio: Vec<i64> = (0..k as i64).map(|i| 1000 + i).collect();
+            prng.shuffle(&mut prio);
+            let change: Vec<u64> = (0..d).map(|_| prng.below(120)).collect();
+            (prio, change)
+        });
         Sched {
             st: Mutex::new(State {
                 threads: vec![TState::NotStarted; k],
@@ -76,6 +86,7 @@ impl Sched {
                 overflow: false,
                 probe_writer_queued_between: 0,
                 held_pairs: Default::default(),
+                pct,
             }),
             cv: Condvar::new(),
         }
@@ -143,9 +154,22 @@ impl Sched {
             s.overflow = true;
         }
         let pos = s.choices.len();
+        let by_policy = match &mut s.pct {
+            Some((prio, change)) => {
+                let mut best = *adm.iter().max_by_key(|t| prio[**t]).unwrap();
+                if change.contains(&(pos as u64)) {
+                    // change point: the thread about to run drops below everyone
+                    let low = prio.iter().min().cloned().unwrap_or(0) - 1;
+                    prio[best] = low;
+                    best = *adm.iter().max_by_key(|t| prio[**t]).unwrap();
+                }
+                best
+            }
+            None => adm[s.rng.below(adm.len() as u64) as usize],
+        };
         let chosen = match &s.replay {
             Some(r) if pos < r.len() && adm.contains(&r[pos]) => r[pos],
-            _ => adm[s.rng.below(adm.len() as u64) as usize],
+            _ => by_policy,
         };
         s.choices.push(chosen);
         // grant
